@@ -65,46 +65,15 @@ Proof.
   destruct (indent_pref prefs) eqn:E; simpl; intros H; inversion H; subst; clear H; simpl; split; auto; discriminate.
 Qed.
 
-(* ------------------------------------------------------------------ a whole body *)
-Lemma exec_rel st b : well_bracketed st = true ->
-  forall fuel i os g1 g2, rel i g1 g2 ->
-    snd (exec st b fuel i os g1) = snd (exec st b fuel i os g2) /\
-    eqv (fst (exec st b fuel i os g1)) (fst (exec st b fuel i os g2)).
+Lemma wb_in_frame st : well_bracketed st = true -> parse_saved_in_frame st = true.
 Proof.
-  intros Hwb. pose proof (wb_fields st Hwb) as (_ & _ & _ & _ & _ & _ & _ & Hl & _).
-  induction fuel as [|f IH]; intros i os g1 g2 Hrel; simpl.
-  - split; [reflexivity | eapply rel_eqv; eauto].
-  - destruct (b os) as [e| | |].
-    + pose proof (do_ev_rel st i e g1 g2 Hwb Hrel) as H.
-      destruct (do_ev st i e g1) as [[[g1' o1] i1]|], (do_ev st i e g2) as [[[g2' o2] i2]|]; try contradiction.
-      * destruct H as (-> & -> & H). apply IH; assumption.
-      * simpl. split; [reflexivity | eapply rel_eqv; eauto].
-    + simpl. split; [reflexivity | eapply rel_eqv; eauto].
-    + simpl. split; [reflexivity | eapply rel_eqv; eauto].
-    + rewrite Hl. simpl. split; [reflexivity | eapply rel_eqv; eauto].
-Qed.
-
-Lemma exec_frame st b : well_bracketed st = true ->
-  forall fuel i os g,
-    core (fst (exec st b fuel i os g)) = core g /\
-    (indent_pref (prefs g) = false -> mem (fst (exec st b fuel i os g)) = mem g).
-Proof.
-  intros Hwb. pose proof (wb_fields st Hwb) as (_ & _ & _ & _ & _ & _ & _ & Hl & _).
-  induction fuel as [|f IH]; intros i os g; simpl; auto.
-  destruct (b os) as [e| | |]; simpl; auto.
-  - destruct (do_ev st i e g) as [[[g' o] i']|] eqn:E; simpl; auto.
-    destruct (do_ev_frame _ _ _ _ _ _ _ Hwb E) as [Hc Hm].
-    destruct (IH i' (os ++ [o]) g') as [Hc' Hm']. split.
-    + congruence.
-    + intros Hp. assert (indent_pref (prefs g') = false) as Hp'.
-      { unfold core in Hc. inversion Hc. congruence. }
-      rewrite (Hm' Hp'). auto.
-  - rewrite Hl. simpl. auto.
+  unfold well_bracketed. intros H.
+  repeat (apply andb_true_iff in H; destruct H as [H ?]). assumption.
 Qed.
 
 (* ------------------------------------------------------------------ setters of single cells *)
 Lemma eqv_set_raising b g1 g2 : eqv g1 g2 -> eqv (set_raising b g1) (set_raising b g2).
-Proof. intros H. destruct g1, g2. fields H. apply eqv_refl || (split; reflexivity). Qed.
+Proof. intros H. destruct g1, g2. fields H. split; reflexivity. Qed.
 
 Lemma eqv_set_ser i p lv m sl g1 g2 : eqv g1 g2 -> eqv (set_ser i p lv m sl g1) (set_ser i p lv m sl g2).
 Proof. intros H. destruct g1, g2. fields H. split; reflexivity. Qed.
@@ -112,41 +81,50 @@ Proof. intros H. destruct g1, g2. fields H. split; reflexivity. Qed.
 Lemma core_set_raising b g : core (set_raising b g) = (b, ser g, prefs g, level g, dx g, parsers g).
 Proof. reflexivity. Qed.
 
-(* ------------------------------------------------------------------ the parse bracket *)
-Lemma parse_bracket_rel st p b fuel g1 g2 :
-  well_bracketed st = true -> eqv g1 g2 ->
-  snd (parse_bracket st p b fuel g1) = snd (parse_bracket st p b fuel g2) /\
-  eqv (fst (parse_bracket st p b fuel g1)) (fst (parse_bracket st p b fuel g2)).
+(* ------------------------------------------------------------------ the parse bracket, for any way [ex] of running its body *)
+Definition ex_rel (ex : G -> G * (list obs * term)) : Prop :=
+  forall a1 a2, eqv a1 a2 -> snd (ex a1) = snd (ex a2) /\ eqv (fst (ex a1)) (fst (ex a2)).
+Definition ex_frame (ex : G -> G * (list obs * term)) : Prop :=
+  forall a, core (fst (ex a)) = core a /\ (indent_pref (prefs a) = false -> mem (fst (ex a)) = mem a).
+
+Lemma parse_bracket_rel st who praise ex g1 g2 :
+  well_bracketed st = true -> ex_rel ex -> eqv g1 g2 ->
+  snd (parse_bracket st who praise ex g1) = snd (parse_bracket st who praise ex g2) /\
+  eqv (fst (parse_bracket st who praise ex g1)) (fst (parse_bracket st who praise ex g2)).
 Proof.
-  intros Hwb H. unfold parse_bracket.
+  intros Hwb Hex H. unfold parse_bracket.
+  pose proof (wb_fields st Hwb) as (_ & _ & Hs & _). pose proof (wb_in_frame st Hwb) as Hf.
+  rewrite Hs, Hf. simpl.
   assert (raising g1 = raising g2) as Hr by (destruct H as [Hc _]; unfold core in Hc; inversion Hc; auto).
   rewrite Hr.
-  set (a1 := if parse_sets_flag st then set_raising (snd p) g1 else g1).
-  set (a2 := if parse_sets_flag st then set_raising (snd p) g2 else g2).
-  assert (rel false a1 a2) as Ha.
-  { subst a1 a2. simpl. destruct (parse_sets_flag st); auto using eqv_set_raising. }
-  pose proof (exec_rel st b Hwb fuel false [] a1 a2 Ha) as [Hs He].
-  destruct (exec st b fuel false [] a1) as [x1 r1], (exec st b fuel false [] a2) as [x2 r2].
-  simpl in Hs, He. subst r2. simpl. split; auto.
+  set (a1 := if parse_sets_flag st then set_raising praise (match who with Some _ => g1 | None => g1 end)
+             else match who with Some _ => g1 | None => g1 end).
+  set (a2 := if parse_sets_flag st then set_raising praise (match who with Some _ => g2 | None => g2 end)
+             else match who with Some _ => g2 | None => g2 end).
+  assert (eqv a1 a2) as Ha.
+  { subst a1 a2. destruct who; destruct (parse_sets_flag st); auto using eqv_set_raising. }
+  destruct (Hex a1 a2 Ha) as [Hsn He].
+  destruct (ex a1) as [x1 r1], (ex a2) as [x2 r2]. simpl in Hsn, He. subst r2. simpl. split; auto.
   destruct (if is_ret (snd r1) then parse_restores_normal st else parse_restores_exc st);
     auto using eqv_set_raising.
 Qed.
 
-Lemma parse_bracket_frame st p b fuel g :
-  well_bracketed st = true ->
-  core (fst (parse_bracket st p b fuel g)) = core g /\
-  (indent_pref (prefs g) = false -> mem (fst (parse_bracket st p b fuel g)) = mem g).
+Lemma parse_bracket_frame st who praise ex g :
+  well_bracketed st = true -> ex_frame ex ->
+  core (fst (parse_bracket st who praise ex g)) = core g /\
+  (indent_pref (prefs g) = false -> mem (fst (parse_bracket st who praise ex g)) = mem g).
 Proof.
-  intros Hwb. pose proof (wb_fields st Hwb) as (Hn & Hx & Hs & _).
-  unfold parse_bracket. rewrite Hs.
-  set (a := if parse_sets_flag st then set_raising (snd p) g else g).
-  destruct (exec_frame st b Hwb fuel false [] a) as [Hc Hm].
-  destruct (exec st b fuel false [] a) as [x r]. simpl in *.
+  intros Hwb Hex. pose proof (wb_fields st Hwb) as (Hn & Hx & Hs & _). pose proof (wb_in_frame st Hwb) as Hf.
+  unfold parse_bracket. rewrite Hs, Hf. simpl.
+  set (a := if parse_sets_flag st then set_raising praise (match who with Some _ => g | None => g end)
+            else match who with Some _ => g | None => g end).
+  destruct (Hex a) as [Hc Hm].
+  destruct (ex a) as [x r]. simpl in *.
   assert (Hrest : (if is_ret (snd r) then parse_restores_normal st else parse_restores_exc st) = true)
     by (destruct (is_ret (snd r)); auto).
   rewrite Hrest.
   assert (core a = (raising a, ser g, prefs g, level g, dx g, parsers g) /\ mem a = mem g) as [Ha Ha'].
-  { subst a. destruct (parse_sets_flag st); destruct g; split; reflexivity. }
+  { subst a. destruct who; destruct (parse_sets_flag st); destruct g; split; reflexivity. }
   split.
   - rewrite core_set_raising. unfold core in Hc, Ha. rewrite Ha in Hc. inversion Hc. unfold core. congruence.
   - intros Hp. assert (indent_pref (prefs a) = false) as Hp'.
@@ -154,210 +132,295 @@ Proof.
     destruct x. unfold mem in *. simpl in *. rewrite <- Ha'. auto.
 Qed.
 
-(* ------------------------------------------------------------------ one call *)
-Lemma step_rel st c g1 g2 :
-  well_bracketed st = true -> eqv g1 g2 ->
-  snd (step st c g1) = snd (step st c g2) /\ eqv (fst (step st c g1)) (fst (step st c g2)).
+(* ------------------------------------------------------------------ bodies and calls, nested to any depth *)
+(* two runs in lock-step *)
+Lemma sim st : well_bracketed st = true -> forall fuel,
+  (forall b i os g1 g2, rel i g1 g2 ->
+     snd (exec st fuel b i os g1) = snd (exec st fuel b i os g2) /\
+     eqv (fst (exec st fuel b i os g1)) (fst (exec st fuel b i os g2))) /\
+  (forall c g1 g2, eqv g1 g2 ->
+     snd (step st fuel c g1) = snd (step st fuel c g2) /\
+     eqv (fst (step st fuel c g1)) (fst (step st fuel c g2))).
 Proof.
-  intros Hwb H.
-  assert (Hcore : core g1 = core g2) by (destruct H; auto).
-  assert (raising g1 = raising g2 /\ parsers g1 = parsers g2) as [Hr Hps]
-    by (unfold core in Hcore; inversion Hcore; auto).
-  destruct c as [b|i p|p| |praise|who b fuel|fresh fp b1 bm b2 fuel|b fuel]; simpl.
-  - split; auto using eqv_set_raising.
-  - split; auto using eqv_set_ser.
-  - split; auto. destruct g1, g2. fields H. split; reflexivity.
-  - split; auto. destruct g1, g2. fields H. split; reflexivity.
-  - split; auto. destruct g1, g2. fields H. split; reflexivity.
-  - destruct who as [n|].
-    + rewrite Hps. destruct (nth_error (parsers g2) n) as [p|]; simpl; auto.
-      destruct (parse_bracket_rel st p b fuel g1 g2 Hwb H) as [A B].
-      destruct (parse_bracket st p b fuel g1), (parse_bracket st p b fuel g2). simpl in *. subst. auto.
-    + rewrite Hr.
-      destruct (parse_bracket_rel st (raising g2, false) b fuel g1 g2 Hwb H) as [A B].
-      destruct (parse_bracket st (raising g2, false) b fuel g1), (parse_bracket st (raising g2, false) b fuel g2).
-      simpl in *. subst. auto.
-  - rewrite Hr.
-    destruct (parse_bracket_rel st (raising g2, false) b1 fuel g1 g2 Hwb H) as [A B].
-    destruct (parse_bracket st (raising g2, false) b1 fuel g1) as [x1 r1],
-             (parse_bracket st (raising g2, false) b1 fuel g2) as [x2 r2].
-    simpl in A, B. subst r2.
-    destruct (negb (is_ret (snd r1))); simpl; auto.
-    pose proof (exec_rel st bm Hwb fuel false [] x1 x2 B) as [A2 B2].
-    destruct (exec st bm fuel false [] x1) as [y1 rm1], (exec st bm fuel false [] x2) as [y2 rm2].
-    simpl in A2, B2. subst rm2.
-    destruct (negb (is_ret (snd rm1))); simpl; auto.
-    assert (rel false (set_ser fresh fp 0 0 0 y1) (set_ser fresh fp 0 0 0 y2)) as B3
-      by (simpl; auto using eqv_set_ser).
-    pose proof (exec_rel st b2 Hwb fuel false [] _ _ B3) as [A4 B4].
-    destruct (exec st b2 fuel false [] (set_ser fresh fp 0 0 0 y1)) as [z1 q1],
-             (exec st b2 fuel false [] (set_ser fresh fp 0 0 0 y2)) as [z2 q2].
-    simpl in A4, B4. subst q2. simpl. split; auto.
-    destruct (if is_ret (snd q1) then comb_restores_normal st else comb_restores_exc st); auto.
-    destruct y1, y2. fields B2. simpl. apply eqv_set_ser. assumption.
-  - pose proof (exec_rel st b Hwb fuel false [] g1 g2 H) as [A B].
-    destruct (exec st b fuel false [] g1), (exec st b fuel false [] g2). simpl in *. subst. auto.
+  intros Hwb. pose proof (wb_fields st Hwb) as (_ & _ & _ & _ & _ & _ & _ & Hl & _).
+  induction fuel as [|f [IHe IHs]].
+  - split; intros; simpl; split; auto. eapply rel_eqv; eauto.
+  - assert (Hexrel : forall b, ex_rel (exec st f b false [])) by (intros b a1 a2 Ha; apply IHe; exact Ha).
+    split.
+    + intros b i os g1 g2 Hrel. simpl.
+      destruct (b os) as [e| | | |c].
+      * pose proof (do_ev_rel st i e g1 g2 Hwb Hrel) as H.
+        destruct (do_ev st i e g1) as [[[g1' o1] i1]|], (do_ev st i e g2) as [[[g2' o2] i2]|]; try contradiction.
+        -- destruct H as (-> & -> & H). apply IHe; assumption.
+        -- simpl. split; [reflexivity | eapply rel_eqv; eauto].
+      * simpl. split; [reflexivity | eapply rel_eqv; eauto].
+      * simpl. split; [reflexivity | eapply rel_eqv; eauto].
+      * rewrite Hl. simpl. split; [reflexivity | eapply rel_eqv; eauto].
+      * destruct (is_setter c); [simpl; split; [reflexivity | eapply rel_eqv; eauto]|].
+        destruct i; simpl in Hrel.
+        -- subst g1. destruct (step st f c g2) as [g' r]. apply IHe. reflexivity.
+        -- destruct (IHs c g1 g2 Hrel) as [A B].
+           destruct (step st f c g1) as [x1 r1], (step st f c g2) as [x2 r2]. simpl in A, B. subst r2.
+           apply IHe. exact B.
+    + intros c g1 g2 H. simpl.
+      assert (Hcore : core g1 = core g2) by (destruct H; auto).
+      assert (raising g1 = raising g2 /\ parsers g1 = parsers g2) as [Hr Hps]
+        by (unfold core in Hcore; inversion Hcore; auto).
+      destruct c as [b|i p|p| |praise|who b|fresh fp b1 bm b2|b]; simpl.
+      * split; auto using eqv_set_raising.
+      * split; auto using eqv_set_ser.
+      * split; auto. destruct g1, g2. fields H. split; reflexivity.
+      * split; auto. destruct g1, g2. fields H. split; reflexivity.
+      * split; auto. destruct g1, g2. fields H. split; reflexivity.
+      * destruct who as [n|].
+        -- rewrite Hps. destruct (nth_error (parsers g2) n) as [p|]; simpl; auto.
+           destruct (parse_bracket_rel st (Some n) (snd p) _ g1 g2 Hwb (Hexrel b) H) as [A B].
+           destruct (parse_bracket st (Some n) (snd p) (exec st f b false []) g1),
+                    (parse_bracket st (Some n) (snd p) (exec st f b false []) g2). simpl in *. subst. auto.
+        -- destruct (parse_bracket_rel st None false _ g1 g2 Hwb (Hexrel b) H) as [A B].
+           destruct (parse_bracket st None false (exec st f b false []) g1),
+                    (parse_bracket st None false (exec st f b false []) g2). simpl in *. subst. auto.
+      * destruct (parse_bracket_rel st None false _ g1 g2 Hwb (Hexrel b1) H) as [A B].
+        destruct (parse_bracket st None false (exec st f b1 false []) g1) as [x1 r1],
+                 (parse_bracket st None false (exec st f b1 false []) g2) as [x2 r2].
+        simpl in A, B. subst r2.
+        destruct (negb (is_ret (snd r1))); simpl; auto.
+        destruct (IHe bm false [] x1 x2 B) as [A2 B2].
+        destruct (exec st f bm false [] x1) as [y1 rm1], (exec st f bm false [] x2) as [y2 rm2].
+        simpl in A2, B2. subst rm2.
+        destruct (negb (is_ret (snd rm1))); simpl; auto.
+        assert (rel false (set_ser fresh fp 0 0 0 y1) (set_ser fresh fp 0 0 0 y2)) as B3
+          by (simpl; auto using eqv_set_ser).
+        destruct (IHe b2 false [] _ _ B3) as [A4 B4].
+        destruct (exec st f b2 false [] (set_ser fresh fp 0 0 0 y1)) as [z1 q1],
+                 (exec st f b2 false [] (set_ser fresh fp 0 0 0 y2)) as [z2 q2].
+        simpl in A4, B4. subst q2. simpl. split; auto.
+        destruct (if is_ret (snd q1) then comb_restores_normal st else comb_restores_exc st); auto.
+        destruct y1, y2. fields B2. simpl. apply eqv_set_ser. assumption.
+      * destruct (IHe b false [] g1 g2 H) as [A B].
+        destruct (exec st f b false [] g1), (exec st f b false [] g2). simpl in *. subst. auto.
 Qed.
 
-(* a call that is not one of the caller's own settings leaves every cell but the stash as it found it
-   (the selector memo: as long as indentSpecificities is off) *)
-Lemma step_frame st c g :
-  well_bracketed st = true -> is_setter c = false ->
-  core (fst (step st c g)) = core g /\
-  (indent_pref (prefs g) = false -> mem (fst (step st c g)) = mem g).
+Lemma step_rel st fuel c g1 g2 :
+  well_bracketed st = true -> eqv g1 g2 ->
+  snd (step st fuel c g1) = snd (step st fuel c g2) /\ eqv (fst (step st fuel c g1)) (fst (step st fuel c g2)).
+Proof. intros Hwb. apply (sim st Hwb fuel). Qed.
+
+(* a body, and a call that is not one of the caller's own settings, leave every cell but the stash as
+   they found it (the selector memo: as long as indentSpecificities is off) -- nested calls included *)
+Lemma frame st : well_bracketed st = true -> forall fuel,
+  (forall b i os g,
+     core (fst (exec st fuel b i os g)) = core g /\
+     (indent_pref (prefs g) = false -> mem (fst (exec st fuel b i os g)) = mem g)) /\
+  (forall c g, is_setter c = false ->
+     core (fst (step st fuel c g)) = core g /\
+     (indent_pref (prefs g) = false -> mem (fst (step st fuel c g)) = mem g)).
 Proof.
-  intros Hwb Hc. pose proof (wb_fields st Hwb) as (_ & _ & _ & _ & _ & Hcn & Hcx & _ & _).
-  destruct c as [b|i p|p| |praise|who b fuel|fresh fp b1 bm b2 fuel|b fuel]; simpl in Hc; try discriminate; simpl.
-  - destruct who as [n|].
-    + destruct (nth_error (parsers g) n) as [p|]; simpl; auto.
-      pose proof (parse_bracket_frame st p b fuel g Hwb) as F.
-      destruct (parse_bracket st p b fuel g). exact F.
-    + pose proof (parse_bracket_frame st (raising g, false) b fuel g Hwb) as F.
-      destruct (parse_bracket st (raising g, false) b fuel g). exact F.
-  - pose proof (parse_bracket_frame st (raising g, false) b1 fuel g Hwb) as [F1 M1].
-    destruct (parse_bracket st (raising g, false) b1 fuel g) as [x r1]. simpl in F1, M1.
-    destruct (negb (is_ret (snd r1))); simpl; auto.
-    pose proof (exec_frame st bm Hwb fuel false [] x) as [F2 M2].
-    destruct (exec st bm fuel false [] x) as [y rm]. simpl in F2, M2.
-    assert (Fy : core y = core g) by congruence.
-    assert (My : indent_pref (prefs g) = false -> mem y = mem g).
-    { intros Hp. rewrite M2; auto. unfold core in F1. inversion F1. congruence. }
-    destruct (negb (is_ret (snd rm))); simpl; auto.
-    pose proof (exec_frame st b2 Hwb fuel false [] (set_ser fresh fp 0 0 0 y)) as [F3 _].
-    destruct (exec st b2 fuel false [] (set_ser fresh fp 0 0 0 y)) as [z q]. simpl in F3.
-    assert (Hrest : (if is_ret (snd q) then comb_restores_normal st else comb_restores_exc st) = true)
-      by (destruct (is_ret (snd q)); auto).
-    rewrite Hrest. destruct y, z. unfold core, mem in *. simpl in *. inversion F3; subst. split; auto.
-  - pose proof (exec_frame st b Hwb fuel false [] g) as F.
-    destruct (exec st b fuel false [] g). exact F.
+  intros Hwb. pose proof (wb_fields st Hwb) as (_ & _ & _ & _ & _ & Hcn & Hcx & Hl & _).
+  assert (chain : forall g g' g'' : G,
+             core g' = core g /\ (indent_pref (prefs g) = false -> mem g' = mem g) ->
+             core g'' = core g' /\ (indent_pref (prefs g') = false -> mem g'' = mem g') ->
+             core g'' = core g /\ (indent_pref (prefs g) = false -> mem g'' = mem g)).
+  { intros g g' g'' [A B] [C D]. split; [congruence|]. intros Hp.
+    assert (indent_pref (prefs g') = false) by (unfold core in A; inversion A; congruence).
+    rewrite D; auto. }
+  induction fuel as [|f [IHe IHs]].
+  - split; intros; simpl; auto.
+  - assert (Hexf : forall b, ex_frame (exec st f b false [])) by (intros b a; apply IHe).
+    split.
+    + intros b i os g. simpl.
+      destruct (b os) as [e| | | |c]; simpl; auto.
+      * destruct (do_ev st i e g) as [[[g' o] i']|] eqn:E; simpl; auto.
+        eapply chain; [exact (do_ev_frame _ _ _ _ _ _ _ Hwb E) | apply IHe].
+      * rewrite Hl. simpl. auto.
+      * destruct (is_setter c) eqn:Es; simpl; auto.
+        pose proof (IHs c g Es) as F. destruct (step st f c g) as [g' r]. simpl in F.
+        eapply chain; [exact F | apply IHe].
+    + intros c g Hc. simpl.
+      destruct c as [b|i p|p| |praise|who b|fresh fp b1 bm b2|b]; simpl in Hc; try discriminate.
+      * destruct who as [n|].
+        -- destruct (nth_error (parsers g) n) as [p|]; simpl; auto.
+           pose proof (parse_bracket_frame st (Some n) (snd p) _ g Hwb (Hexf b)) as F.
+           destruct (parse_bracket st (Some n) (snd p) (exec st f b false []) g). exact F.
+        -- pose proof (parse_bracket_frame st None false _ g Hwb (Hexf b)) as F.
+           destruct (parse_bracket st None false (exec st f b false []) g). exact F.
+      * pose proof (parse_bracket_frame st None false _ g Hwb (Hexf b1)) as F1.
+        destruct (parse_bracket st None false (exec st f b1 false []) g) as [x r1]. simpl in F1.
+        destruct (negb (is_ret (snd r1))); simpl; auto.
+        pose proof (IHe bm false [] x) as F2.
+        destruct (exec st f bm false [] x) as [y rm]. simpl in F2.
+        pose proof (chain _ _ _ F1 F2) as [Fy My].
+        destruct (negb (is_ret (snd rm))); simpl; auto.
+        destruct (IHe b2 false [] (set_ser fresh fp 0 0 0 y)) as [F3 _].
+        destruct (exec st f b2 false [] (set_ser fresh fp 0 0 0 y)) as [z q]. simpl in F3.
+        assert (Hrest : (if is_ret (snd q) then comb_restores_normal st else comb_restores_exc st) = true)
+          by (destruct (is_ret (snd q)); auto).
+        rewrite Hrest. destruct y, z. unfold core, mem in *. simpl in *. inversion F3; subst. split; auto.
+      * pose proof (IHe b false [] g) as F.
+        destruct (exec st f b false [] g). exact F.
 Qed.
+
+Lemma step_frame st fuel c g :
+  well_bracketed st = true -> is_setter c = false ->
+  core (fst (step st fuel c g)) = core g /\
+  (indent_pref (prefs g) = false -> mem (fst (step st fuel c g)) = mem g).
+Proof. intros Hwb. apply (frame st Hwb fuel). Qed.
 
 (* ------------------------------------------------------------------ histories *)
-Lemma run_cons st c hist g : run st (c :: hist) g = run st hist (fst (step st c g)).
+Lemma run_cons st fuel c hist g : run st fuel (c :: hist) g = run st fuel hist (fst (step st fuel c g)).
 Proof. reflexivity. Qed.
 
-Lemma run_app st h1 h2 g : run st (h1 ++ h2) g = run st h2 (run st h1 g).
+Lemma run_app st fuel h1 h2 g : run st fuel (h1 ++ h2) g = run st fuel h2 (run st fuel h1 g).
 Proof. unfold run. apply fold_left_app. Qed.
 
-Lemma setter_keeps_no_indent st c g :
+Lemma setter_keeps_no_indent st fuel c g :
   is_setter c = true -> no_indent_call c = true -> indent_pref (prefs g) = false ->
-  indent_pref (prefs (fst (step st c g))) = false.
+  indent_pref (prefs (fst (step st fuel c g))) = false.
 Proof.
+  destruct fuel; [simpl; auto|].
   destruct c; simpl; try discriminate; intros _ Hn Hp; auto.
   - apply negb_true_iff in Hn. exact Hn.
   - apply negb_true_iff in Hn. exact Hn.
 Qed.
 
-Lemma run_eqv st : well_bracketed st = true ->
+Lemma run_eqv st fuel : well_bracketed st = true ->
   forall hist g1 g2, eqv g1 g2 -> no_indent hist = true -> indent_pref (prefs g1) = false ->
-    eqv (run st hist g1) (run st (setters hist) g2).
+    eqv (run st fuel hist g1) (run st fuel (setters hist) g2).
 Proof.
   intros Hwb. induction hist as [|c hist IH]; intros g1 g2 H Hn Hp; [simpl; auto|].
   simpl in Hn. apply andb_true_iff in Hn as [Hn1 Hn2].
   change (setters (c :: hist)) with (if is_setter c then c :: setters hist else setters hist).
   rewrite run_cons. destruct (is_setter c) eqn:Es.
   - rewrite run_cons. apply IH; auto.
-    + apply (step_rel st c g1 g2 Hwb H).
+    + apply (step_rel st fuel c g1 g2 Hwb H).
     + apply setter_keeps_no_indent; auto.
-  - destruct (step_frame st c g1 Hwb Es) as [Fc Fm]. apply IH; auto.
+  - destruct (step_frame st fuel c g1 Hwb Es) as [Fc Fm]. apply IH; auto.
     + apply eqv_trans with g1; auto. split; auto.
     + unfold core in Fc. inversion Fc. congruence.
 Qed.
 
-(* C06, first half, for any well-bracketed tree *)
+(* C06, first half, for any well-bracketed tree; calls may nest (callbacks) to any depth *)
 Theorem history_independent_gen st : well_bracketed st = true ->
-  forall hist c, no_indent hist = true ->
-    result st (run st hist G0) c = result st (run st (setters hist) G0) c.
+  forall fuel hist c, no_indent hist = true ->
+    result st fuel (run st fuel hist G0) c = result st fuel (run st fuel (setters hist) G0) c.
 Proof.
-  intros Hwb hist c Hn. unfold result.
-  apply (step_rel st c _ _ Hwb). apply run_eqv; auto using eqv_refl.
+  intros Hwb fuel hist c Hn. unfold result.
+  apply (step_rel st fuel c _ _ Hwb). apply run_eqv; auto using eqv_refl.
 Qed.
 
 Corollary history_independent_nosetters st : well_bracketed st = true ->
-  forall hist c, setters hist = [] -> no_indent hist = true ->
-    result st (run st hist G0) c = result st (run st [] G0) c.
-Proof. intros Hwb hist c Hs Hn. rewrite (history_independent_gen st Hwb hist c Hn), Hs. reflexivity. Qed.
+  forall fuel hist c, setters hist = [] -> no_indent hist = true ->
+    result st fuel (run st fuel hist G0) c = result st fuel (run st fuel [] G0) c.
+Proof. intros Hwb fuel hist c Hs Hn. rewrite (history_independent_gen st Hwb fuel hist c Hn), Hs. reflexivity. Qed.
 
-Lemma observable_step st c g : well_bracketed st = true ->
-  observable (fst (step st c g)) = set_by (observable g) c.
+Lemma observable_step st fuel c g : well_bracketed st = true -> fuel <> O ->
+  observable (fst (step st fuel c g)) = set_by (observable g) c.
 Proof.
-  intros Hwb. destruct (is_setter c) eqn:Es.
-  - destruct c; simpl in Es; try discriminate; destruct g; reflexivity.
-  - destruct (step_frame st c g Hwb Es) as [Fc _].
+  intros Hwb Hf. destruct (is_setter c) eqn:Es.
+  - destruct fuel; [congruence|]. destruct c; simpl in Es; try discriminate; destruct g; reflexivity.
+  - destruct (step_frame st fuel c g Hwb Es) as [Fc _].
     unfold observable. unfold core in Fc. inversion Fc.
     destruct c; simpl in Es; try discriminate; simpl; congruence.
 Qed.
 
-(* C06, second half, for any well-bracketed tree *)
+(* C06, second half, for any well-bracketed tree (fuel 0 runs nothing, not even the caller's settings) *)
 Theorem caller_settings_stable_gen st : well_bracketed st = true ->
-  forall hist, observable (run st hist G0) = last_set_by_caller hist.
+  forall fuel hist, fuel <> O -> observable (run st fuel hist G0) = last_set_by_caller hist.
 Proof.
-  intros Hwb hist. unfold last_set_by_caller. generalize G0.
+  intros Hwb fuel hist Hf. unfold last_set_by_caller. generalize G0.
   induction hist as [|c hist IH]; intros g; [reflexivity|].
   rewrite run_cons.
   change (fold_left set_by (c :: hist) (observable g)) with (fold_left set_by hist (set_by (observable g) c)).
-  rewrite <- (observable_step st c g Hwb). apply IH.
+  rewrite <- (observable_step st fuel c g Hwb Hf). apply IH.
 Qed.
 
 (* the selector memo of the experimental indentSpecificities preference is never reset: with the
    preference on, a serialisation sees what earlier serialisations left -- in every tree *)
-Definition memo_hist : list call := [CSetPrefs 1; CPlain (script [Do (EvSer 1 0)]) 5].
-Definition memo_call : call := CPlain (script [Do (EvSer 2 1)]) 5.
+Definition memo_hist : list call := [CSetPrefs 1; CPlain (script [Do (EvSer 1 0)])].
+Definition memo_call : call := CPlain (script [Do (EvSer 2 1)]).
 
 Theorem memo_dependent st :
-  result st (run st memo_hist G0) memo_call <> result st (run st (setters memo_hist) G0) memo_call.
+  result st 5 (run st 5 memo_hist G0) memo_call <> result st 5 (run st 5 (setters memo_hist) G0) memo_call.
 Proof.
   unfold result, memo_hist, memo_call. simpl. unfold reads_memo. simpl. discriminate.
 Qed.
 
 (* ------------------------------------------------------------------ the pinned tree *)
 (* (i)  MediaQuery('print x') = [ProdParser(); pop; ...; savedTokens.append(x)], then parseStyle *)
-Definition stash_hist : list call := [CPlain (script [Do EvInit; Do EvPop; Do (EvSave 120)]) 10].
-Definition stash_call : call := CParse None (script [Do EvInit; Do EvPop]) 10.
+Definition stash_hist : list call := [CPlain (script [Do EvInit; Do EvPop; Do (EvSave 120)])].
+Definition stash_call : call := CParse None (script [Do EvInit; Do EvPop]).
 (* (ii) parseString(b'@charset "ascii"; \xff') raises in the codec; then any DOM operation that logs an error *)
-Definition flag_hist : list call := [CParse None (script [Exc]) 5].
-Definition flag_call : call := CPlain (script [Do EvLog]) 5.
+Definition flag_hist : list call := [CParse None (script [Exc])].
+Definition flag_call : call := CPlain (script [Do EvLog]).
 (* (ii') p = CSSParser(); log.raiseExceptions = False; p.parseString('a{}') *)
-Definition captured_hist : list call := [CNewParser false; CSetRaising false; CParse (Some 0%nat) (script [Ret]) 5].
+Definition captured_hist : list call := [CNewParser false; CSetRaising false; CParse (Some 0%nat) (script [Ret])].
 (* (iii) csscombine(cssText='a{color:red}', targetencoding='undefined') raises while serialising *)
-Definition combine_hist : list call := [CCombine 7 2 (script [Ret]) (script [Ret]) (script [Do (EvSer 0 0); Exc]) 5].
+Definition combine_hist : list call := [CCombine 7 2 (script [Ret]) (script [Ret]) (script [Do (EvSer 0 0); Exc])].
 
-Lemma pinned_stash : result pinned (run pinned stash_hist G0) stash_call <> result pinned (run pinned (setters stash_hist) G0) stash_call.
+Lemma pinned_stash : result pinned 10 (run pinned 10 stash_hist G0) stash_call <> result pinned 10 (run pinned 10 (setters stash_hist) G0) stash_call.
 Proof. vm_compute. discriminate. Qed.
 
-Lemma pinned_flag : result pinned (run pinned flag_hist G0) flag_call <> result pinned (run pinned (setters flag_hist) G0) flag_call.
+Lemma pinned_flag : result pinned 10 (run pinned 10 flag_hist G0) flag_call <> result pinned 10 (run pinned 10 (setters flag_hist) G0) flag_call.
 Proof. vm_compute. discriminate. Qed.
 
-Lemma pinned_flag_settings : observable (run pinned flag_hist G0) <> last_set_by_caller flag_hist.
+Lemma pinned_flag_settings : observable (run pinned 10 flag_hist G0) <> last_set_by_caller flag_hist.
 Proof. vm_compute. discriminate. Qed.
 
-Lemma pinned_captured_settings : observable (run pinned captured_hist G0) <> last_set_by_caller captured_hist.
+Lemma pinned_captured_settings : observable (run pinned 10 captured_hist G0) <> last_set_by_caller captured_hist.
 Proof. vm_compute. discriminate. Qed.
 
-Lemma pinned_combine_settings : observable (run pinned combine_hist G0) <> last_set_by_caller combine_hist.
+Lemma pinned_combine_settings : observable (run pinned 10 combine_hist G0) <> last_set_by_caller combine_hist.
 Proof. vm_compute. discriminate. Qed.
 
-(* the same witnesses are harmless in a well-bracketed tree *)
-Definition repaired : sites := mkSites true true true true true true true true true true.
+(* ------------------------------------------------------------------ a tree that keeps the saved flag on the parser object *)
+(* every bracket complete, value read at parse entry -- but stored in self.__globalRaising instead of the
+   frame of the running parse (seeded regression C06-2).  Sequential use is fine; a fetcher that parses
+   with the same parser while the outer parse resolves an @import overwrites the slot: *)
+Definition onself : sites := mkSites true true true true false true true true true true true.
+Definition reentrant_hist : list call :=
+  [CNewParser false; CParse (Some 0%nat) (script [Nest (CParse (Some 0%nat) (script [Ret])); Ret])].
 
-Example repaired_stash : result repaired (run repaired stash_hist G0) stash_call = [([ONone; OTok None], TRet)].
+Lemma onself_reentrant_settings : observable (run onself 10 reentrant_hist G0) <> last_set_by_caller reentrant_hist.
+Proof. vm_compute. discriminate. Qed.
+
+Lemma onself_reentrant_result :
+  result onself 10 (run onself 10 reentrant_hist G0) flag_call <> result onself 10 (run onself 10 (setters reentrant_hist) G0) flag_call.
+Proof. vm_compute. discriminate. Qed.
+
+(* nesting on ANOTHER parser object, or sequential parses on the same one, do not show it *)
+Example onself_other_parser_ok :
+  observable (run onself 10 [CNewParser false; CNewParser false;
+                             CParse (Some 0%nat) (script [Nest (CParse (Some 1%nat) (script [Ret])); Ret]);
+                             CParse (Some 0%nat) (script [Ret])] G0) = observable G0.
 Proof. vm_compute. reflexivity. Qed.
 
-Example repaired_flag : result repaired (run repaired flag_hist G0) flag_call = [([OFlag true], TRet)].
+(* the same witnesses are harmless in a well-bracketed tree *)
+Definition repaired : sites := mkSites true true true true true true true true true true true.
+
+Example repaired_stash : result repaired 10 (run repaired 10 stash_hist G0) stash_call = [([ONone; OTok None], TRet)].
+Proof. vm_compute. reflexivity. Qed.
+
+Example repaired_flag : result repaired 10 (run repaired 10 flag_hist G0) flag_call = [([OFlag true], TRet)].
 Proof. vm_compute. reflexivity. Qed.
 
 Example repaired_settings :
-  observable (run repaired (flag_hist ++ captured_hist ++ combine_hist) G0) = (false, 0%N, 0%N, false).
+  observable (run repaired 10 (flag_hist ++ captured_hist ++ combine_hist ++ reentrant_hist) G0) = (false, 0%N, 0%N, false).
 Proof. vm_compute. reflexivity. Qed.
 
 (* non-vacuity of the hypotheses of history_independent_gen: a history that leaks a token, raises in a
-   parse, changes settings and serialises -- and a call that reads every cell *)
+   parse, changes settings, serialises, parses re-entrantly (same parser, depth 2) -- and a call that
+   reads every cell, from inside a callback too *)
 Definition busy_hist : list call :=
-  stash_hist ++ flag_hist ++ [CSetRaising false; CSetSer 3 4; CPlain (script [Do (EvSer 9 9); ExcInRule]) 5] ++ combine_hist ++ [CSetDX].
+  stash_hist ++ flag_hist ++ [CSetRaising false; CSetSer 3 4; CPlain (script [Do (EvSer 9 9); ExcInRule])] ++ combine_hist ++
+  [CSetDX; CNewParser true;
+   CParse (Some 0%nat) (script [Do EvInit; Nest (CParse (Some 0%nat) (script [Do EvInit; Do (EvSave 5);
+                                   Nest (CParse (Some 0%nat) (script [Do EvLog; Exc])); Ret])); Do EvPop; Exc])].
 Definition busy_call : call :=
-  CParse None (script [Do EvInit; Do EvPop; Do EvTake; Do EvLog; Do (EvSer 1 1); Do EvTok]) 10.
+  CParse None (script [Do EvInit; Do EvPop; Do EvTake; Do EvLog; Do (EvSer 1 1); Do EvTok;
+                       Nest (CPlain (script [Do EvLog; Do EvInit; Do EvPop])); Do EvLog]).
 
 Example busy_ok : well_bracketed repaired = true /\ no_indent busy_hist = true /\
-  result repaired (run repaired busy_hist G0) busy_call =
-    [([ONone; OTok None; OTok None; OFlag false; OSer 3 4 0 0 None; ODx true], TRet)].
+  result repaired 20 (run repaired 20 busy_hist G0) busy_call =
+    [([ONone; OTok None; OTok None; OFlag false; OSer 3 4 0 0 None; ODx true;
+       ONest [([OFlag false; ONone; OTok None], TRet)]; OFlag false], TRet)].
 Proof. vm_compute. repeat split. Qed.
